@@ -114,6 +114,99 @@ fn c14_sync(rec: &mut Rec, tier: u8, seed: u64, idx: usize) {
     }
 }
 
+/// C15 on blocking programs (blocked threads are forced switches, not preemptions). Every fourth of them has yields
+/// sprinkled in (a thread that yields while it holds a lock, a thread with fewer yields that becomes runnable later):
+/// for those only the first clause (no execution with more than n preemptive switches, counted from the decision paths)
+/// is judged, because result sets of programs with yields are subject to the open C18 finding.
+fn c15_sync(rec: &mut Rec, tier: u8, seed: u64, idx: usize) {
+    use crate::sync::{run_loom, SCfg, SOp::*, SProg};
+    let sp = |threads: Vec<Vec<crate::sync::SOp>>| SProg { threads, loom_arc: false, forget_rx: false, rx_owner: 0 };
+    let with_yields = (idx / 4) % 4 == 0;
+    let p = match (with_yields, idx / 16) {
+        (true, 0) => sp(vec![vec![Lock(0), Yield, AStore(0, 1), Unlock(0), AStore(1, 1), ALoad(0), Join(1)], vec![ALoad(0), Lock(0), AStore(0, 2), Unlock(0), ALoad(1)]]),
+        (true, 1) => sp(vec![vec![Yield, AStore(0, 1), ALoad(1), AStore(0, 2), Join(1)], vec![ALoad(0), AStore(1, 1), ALoad(0)]]),
+        (true, 2) => sp(vec![vec![Write, Yield, RwUnlock, AStore(0, 1), ALoad(1), Join(1), Join(2)], vec![Read, ALoad(0), RwUnlock, AStore(1, 1)], vec![ALoad(1), ALoad(0)]]),
+        (true, _) => {
+            let mut rng = Rng::new(seed, 0xC15 + idx as u64);
+            let mut p = crate::fam_sync::prog_at("C07", 0, seed ^ 0x15, 50_000_000 + idx);
+            let mut n = 0;
+            for t in 0..p.threads.len() {
+                let mut k = 0;
+                while k < p.threads[t].len() {
+                    if rng.chance(1, 3) && n < 2 {
+                        p.threads[t].insert(k, Yield);
+                        n += 1;
+                        k += 1;
+                    }
+                    k += 1;
+                }
+            }
+            if n == 0 {
+                p.threads[0].insert(0, Yield);
+            }
+            p
+        }
+        (false, _) => crate::fam_sync::prog_at(if idx % 8 == 3 { "C07" } else { "C01" }, 0, seed ^ 0x15, 50_000_000 + idx),
+    };
+    rec.hash = p.hash();
+    rec.prog = p.s();
+    rec.extra = json!({"family": "path"});
+    let cfg = SCfg { iter_cap: if tier == 0 { 20_000 } else { 60_000 }, max_branches: 5000, keep_paths: true, ..Default::default() };
+    let base = run_loom(&p, &cfg);
+    rec.runs = 1;
+    rec.iters = base.iters as u64;
+    rec.events = base.events as u64;
+    if base.panic.is_some() {
+        // failing programs (deadlocks, ...) stop at their first failing iteration: no result sets to compare
+        rec.status = if base.kind() == Some(PanicKind::IterCap) { "inconclusive:iteration-cap".into() } else { "ok".into() };
+        return;
+    }
+    let nops: usize = p.threads.iter().map(|t| t.len()).sum();
+    let big = nops + p.threads.len() + 1;
+    let mut sets: Vec<(usize, BTreeSet<crate::sync::Term>)> = Vec::new();
+    for n in [0usize, 1, 2, 3, big] {
+        let r = run_loom(&p, &SCfg { preemption_bound: Some(n), ..cfg.clone() });
+        rec.runs += 1;
+        rec.iters += r.iters as u64;
+        match r.kind() {
+            Some(PanicKind::IterCap) => {
+                rec.status = "inconclusive:iteration-cap".into();
+                return;
+            }
+            Some(k) => {
+                rec.v("unexpected_panic", format!("{} @ {}", k.short(), r.panic_file), format!("bound {}: {}", n, r.panic.clone().unwrap_or_default()));
+                break;
+            }
+            None => {}
+        }
+        let rep = pathmon::check(&r.paths, Some(n), true);
+        add_path_viol(rec, &rep, &format!("bound {}: ", n));
+        if !with_yields {
+            if !r.outcomes.is_subset(&base.outcomes) {
+                rec.v("bounded_not_subset", "", format!("bound {} produced {} results the unbounded run lacks", n, r.outcomes.difference(&base.outcomes).count()));
+            }
+            sets.push((n, r.outcomes));
+        }
+    }
+    for w in sets.windows(2) {
+        if !w[0].1.is_subset(&w[1].1) {
+            rec.v("bounded_not_monotone", "", format!("results found with bound {} are lost with bound {}", w[0].0, w[1].0));
+        }
+    }
+    if let Some(last) = sets.last() {
+        if last.0 == big && last.1 != base.outcomes {
+            rec.v("bounded_full_differs", "", format!("bound {} (>= number of operations) gives {} results, unbounded {}", big, last.1.len(), base.outcomes.len()));
+        }
+    }
+    rec.nontrivial = base.iters >= 2;
+    if !rec.viol.is_empty() {
+        rec.prog_json = serde_json::to_value(&p).unwrap();
+    }
+    if rec.idx % 97 == 3 {
+        rec.extra = json!({"family": "path", "blocking_program": true, "with_yields": with_yields, "unbounded_results": base.outcomes.len(), "unbounded_iterations": base.iters});
+    }
+}
+
 /// C13 on a blocking program: determinism and clean stop / resume at every k (Spurious branches, disabled threads)
 fn c13_sync(rec: &mut Rec, tier: u8, seed: u64, idx: usize) {
     use crate::sync::{run_loom, SCfg};
@@ -180,6 +273,10 @@ pub fn work(prop: &str, tier: u8, seed: u64, idx: usize) -> Rec {
     }
     if prop == "C14" && idx % 2 == 1 {
         c14_sync(&mut rec, tier, seed, idx);
+        return rec;
+    }
+    if prop == "C15" && idx % 4 == 3 {
+        c15_sync(&mut rec, tier, seed, idx);
         return rec;
     }
     let p = prog_for(prop, tier, seed, idx);
@@ -427,12 +524,18 @@ fn c19(p: &Prog, rec: &mut Rec, tier: u8) {
     }
     // --- max_branches: exactly the longest decision path is needed
     if l >= 2 {
-        let mut cfg = base_cfg(tier);
-        cfg.max_branches = Some(l - 1);
-        let r = run(p, &cfg);
-        account(rec, &r);
-        if r.kind() != Some(PanicKind::BranchLimit) {
-            rec.v("max_branches", "", format!("longest decision path has {} entries; max_branches = {} ended with {:?} instead of the branch-limit panic", l, l - 1, r.kind().map(|k| k.short())));
+        // every limit below the need (a run with a limit m < L fails in its first iteration that needs more: cheap)
+        for m in (1..l).rev() {
+            let mut cfg = base_cfg(tier);
+            cfg.max_branches = Some(m);
+            cfg.keep_paths = false;
+            cfg.keep_seq = false;
+            let r = run(p, &cfg);
+            account(rec, &r);
+            if r.kind() != Some(PanicKind::BranchLimit) {
+                rec.v("max_branches", "", format!("longest decision path has {} entries; max_branches = {} ended with {:?} instead of the branch-limit panic", l, m, r.kind().map(|k| k.short())));
+                break;
+            }
         }
         let mut cfg = base_cfg(tier);
         cfg.max_branches = Some(l);
